@@ -4,6 +4,7 @@ package c20
 
 import (
 	"bytes"
+	"crypto/sha256"
 	"encoding/binary"
 	"errors"
 	"fmt"
@@ -120,15 +121,140 @@ func manyHeaders(n int) []byte {
 func fmapSeeds(r *rand.Rand) []Seed {
 	var ss []Seed
 	img, fs := fmapImage(r, 1024, 128, 3)
-	ss = append(ss, Seed{Name: "map3", In: img, Fields: fs, Rels: fmapRels(img, 128, 3)})
+	ss = append(ss, Seed{Name: "map3", In: img, Fields: fs, Rels: fmapRels(img, 128, 3), Heads: []int{128}})
 	img, fs = fmapImage(r, 600, 0, 1)
-	ss = append(ss, Seed{Name: "map1-at0", In: img, Fields: fs, Rels: fmapRels(img, 0, 1)})
+	ss = append(ss, Seed{Name: "map1-at0", In: img, Fields: fs, Rels: fmapRels(img, 0, 1), Heads: []int{0}})
 	img, fs = fmapImage(r, 700, 700-56-42*2, 2)
-	ss = append(ss, Seed{Name: "map2-at-end", In: img, Fields: fs, Rels: fmapRels(img, 700-56-42*2, 2)})
+	ss = append(ss, Seed{Name: "map2-at-end", In: img, Fields: fs, Rels: fmapRels(img, 700-56-42*2, 2), Heads: []int{700 - 56 - 42*2}})
 	// a valid map followed by a second header-valid signature
 	img, fs = fmapImage(r, 1024, 64, 2)
 	copy(img[512:], img[64:64+56])
-	ss = append(ss, Seed{Name: "two-maps", In: img, Fields: fs})
+	ss = append(ss, Seed{Name: "two-maps", In: img, Fields: fs, Heads: []int{64}})
+	return ss
+}
+
+// ---- signature-scan shapes (gap closing round 3)
+//
+// fmap.Read is a scan loop over every "__FMAP__" of the image with four ways out of an iteration: no
+// further signature, header cut off by the end of the image, header invalid, header valid (areas read or
+// cut off).  The images below are concatenations of pieces that put each of these candidates before /
+// after / between the others and the last candidate at every interesting distance from the end of the
+// image (the 56-byte header fits exactly, lacks one byte, nothing but the signature, not even that).
+
+type fmapPiece []byte
+
+// fpValid: a complete map (header + n areas); the last area is named `lastName` when given
+func fpValid(n int, lastName string) fmapPiece {
+	b := make([]byte, 56+42*n)
+	copy(b, fmap.Signature)
+	b[8], b[9] = 1, 1
+	le64(b, 10, 0xff000000)
+	le32(b, 18, 0x1000)
+	copy(b[22:], "FLASH")
+	le16(b, 54, uint16(n))
+	for i := 0; i < n; i++ {
+		o := 56 + 42*i
+		le32(b, o, uint32(0x100*i))
+		le32(b, o+4, 0x100)
+		copy(b[o+8:], fmt.Sprintf("AREA%d", i))
+		if i == n-1 && lastName != "" {
+			copy(b[o+8:], lastName+"\x00")
+		}
+	}
+	return b
+}
+
+// fpSig: a signature followed by k bytes that do not make a valid header (VerMajor = 0, no size)
+func fpSig(k int) fmapPiece {
+	b := make([]byte, 8+k)
+	copy(b, fmap.Signature)
+	for i := 8; i < len(b); i++ {
+		b[i] = 0
+	}
+	return b
+}
+
+// fpHdr: a header-valid 56-byte candidate announcing n areas that are not there
+func fpHdr(n int) fmapPiece { return fpValid(0, "")[:54:54].with16(n) }
+
+func (p fmapPiece) with16(n int) fmapPiece {
+	b := append(append([]byte(nil), p...), 0, 0)
+	le16(b, 54, uint16(n))
+	return b
+}
+
+// fpGap: k filler bytes without a signature
+func fpGap(k int) fmapPiece { return bytes.Repeat([]byte{0xa5}, k) }
+
+func fpCat(ps ...fmapPiece) []byte {
+	var b []byte
+	for _, p := range ps {
+		b = append(b, p...)
+	}
+	return b
+}
+
+func fmapScanShapes(tier string) []Seed {
+	var ss []Seed
+	add := func(name string, ps ...fmapPiece) { ss = append(ss, Seed{Name: name, In: fpCat(ps...)}) }
+	V := fpValid(1, "")
+	// the last signature starts d bytes before the end of the image; before it: nothing | a valid map |
+	// an invalid-header candidate and a valid map | two valid maps
+	ds := []int{8, 9, 16, 47, 48, 54, 55, 56, 57}
+	if tier == "thorough" {
+		ds = nil
+		for d := 8; d <= 72; d++ {
+			ds = append(ds, d)
+		}
+	}
+	for _, d := range ds {
+		add(fmt.Sprintf("tail-sig-%d/none-before", d), fpGap(13), fpSig(d-8))
+		add(fmt.Sprintf("tail-sig-%d/valid-before", d), fpGap(13), V, fpGap(5), fpSig(d-8))
+		if tier == "thorough" || d == 8 || d == 55 || d == 56 {
+			add(fmt.Sprintf("tail-sig-%d/invalid+valid-before", d), fpSig(48), V, fpSig(d-8))
+		}
+		if tier == "thorough" {
+			add(fmt.Sprintf("tail-sig-%d/two-valid-before", d), V, V, fpSig(d-8))
+			add(fmt.Sprintf("tail-sig-%d/valid-far-before", d), V, fpGap(5000), fpSig(d-8))
+		}
+	}
+	add("tail-sig-40/two-valid-before", V, V, fpSig(32))
+	add("tail-sig-40/valid-far-before", V, fpGap(5000), fpSig(32))
+	// a partial signature at the very end (1..7 bytes of it): not a candidate at all
+	for _, k := range []int{1, 7} {
+		add(fmt.Sprintf("tail-partial-%d/valid-before", k), V, fpGap(3), fpSig(0)[:k])
+		add(fmt.Sprintf("tail-partial-%d/none-before", k), fpGap(3), fpSig(0)[:k])
+	}
+	// the last candidate is header-valid and complete, its area table is cut off / absent / empty
+	add("tail-hdr-areas-cut/none-before", fpGap(7), fpHdr(1), fpGap(41))
+	add("tail-hdr-areas-cut/valid-before", V, fpHdr(1), fpGap(41))
+	add("tail-hdr-noareas/none-before", fpHdr(0))
+	add("tail-hdr-noareas/valid-before", V, fpHdr(0))
+	add("tail-hdr-65535-areas/none-before", fpHdr(65535), fpGap(100))
+	// two (three) cut-off signatures in a row; back to back; overlapping on the shared "__"
+	add("two-tail-sigs/valid-before", V, fpSig(10), fpSig(5))
+	add("two-tail-sigs/none-before", fpSig(10), fpSig(5))
+	add("three-tail-sigs-back-to-back/valid-before", V, fpSig(0), fpSig(0), fpSig(0))
+	add("overlapping-tail-sigs/valid-before", V, fpSig(0)[:6], fpSig(0))
+	add("overlapping-tail-sigs/none-before", fpSig(0)[:6], fpSig(0))
+	// a signature whose (invalid) header window contains the valid map: the candidate in front cannot be cut
+	// off by the end of the image, but the window of its header can end inside / exactly at the end of the map
+	for _, k := range []int{0, 1, 8, 40, 47} {
+		add(fmt.Sprintf("sig-%d-before-valid", k), fpGap(9), fpSig(k), V)
+		add(fmt.Sprintf("sig-%d-before-valid+tail-sig", k), fpSig(k), V, fpSig(20))
+	}
+	add("sig-0-before-noareas-map-at-end", fpSig(0), fpHdr(0)) // the first header read gets 48+8 bytes: exactly fits
+	add("sig-1-before-noareas-map-at-end", fpSig(1), fpHdr(0))
+	// the valid map ends the image and carries the signature inside its own last area (name / offset bytes):
+	// a cut-off candidate *inside* the map already found
+	add("valid-at-end/last-area-named-signature", fpGap(11), fpValid(1, "__FMAP__"))
+	add("valid-at-end/3-areas-last-named-signature", fpValid(3, "__FMAP__"))
+	add("valid-at-end/flash-named-signature", func() fmapPiece { b := fpValid(0, ""); copy(b[22:], "__FMAP__"); return b }())
+	add("valid/area-named-signature+gap", fpValid(2, "__FMAP__"), fpGap(100))
+	// nothing but signatures: every 8 bytes, up to the end (each candidate is invalid until the last ones are cut off)
+	add("only-signatures-64", bytes.Repeat(fpSig(0), 8))
+	add("only-signatures-4K", bytes.Repeat(fpSig(0), 512))
+	add("valid+only-signatures-4K", V, bytes.Repeat(fpSig(0), 512))
 	return ss
 }
 
@@ -150,7 +276,8 @@ func init() {
 			_, _, err := fmap.Read(bytes.NewReader(in))
 			return Res{Class: class(err)}
 		},
-		Model: hexReq("fmap.read"),
+		Shapes: fmapScanShapes,
+		Model:  hexReq("fmap.read"),
 	})
 
 	// ReadArea of area i of the map found in the hostile image (and the range errors)
@@ -199,6 +326,36 @@ func init() {
 			return "fmap.writearea " + core.Hex(in) + " " + args["i"] + " " + args["n"]
 		},
 		Quick: 900,
+	})
+	// Checksum (cmds/fmap checksum): hash of the static areas of the map found in the hostile image — the
+	// other caller of the area sizes besides ReadArea.  No GoM model: O checks only.  The hostile map of
+	// reports/C20-fmap-checksum-hostile.json (700 static areas that each span the whole image) is not a
+	// seed here as long as fixes/C20-fmap-checksum-alloc.diff is not in /repo.
+	Register(&EP{
+		Name: "fmap.checksum",
+		Late: true,
+		Seeds: func(r *rand.Rand) []Seed {
+			ss := fmapSeeds(r)[:3]
+			// every area static, all of them over the whole image (a handful: within the bound either way)
+			img, fs := fmapImage(r, 2048, 32, 8)
+			for i := 0; i < 8; i++ {
+				o := 32 + 56 + 42*i
+				le32(img, o, 0)
+				le32(img, o+4, 2048)
+				le16(img, o+40, fmap.FmapAreaStatic)
+			}
+			ss = append(ss, Seed{Name: "map8-static-overlapping", In: img, Fields: fs, Rels: fmapRels(img, 32, 8), Heads: []int{32}})
+			return ss
+		},
+		Run: func(in []byte, _ map[string]string) Res {
+			f, _, err := fmap.Read(bytes.NewReader(in))
+			if err != nil {
+				return Res{Class: "err", Sub: "read"}
+			}
+			_, err = f.Checksum(bytes.NewReader(in), sha256.New())
+			return Res{Class: class(err)}
+		},
+		Quick: 300,
 	})
 	// Write the map just read back at a hostile start offset
 	Register(&EP{
